@@ -1304,7 +1304,7 @@ def ocb_long_case(acc, where, nblocks, extra):
     aad, pt = (big, b"tiny message") if where == "aad" else (b"hdr", big)
     acc.count("evaluations")
     acc.count("ocb_long_cases")
-    acc.seen("classes", ("OCB-long", where, nblocks, extra))
+    acc.seen("ocb_long", (where, nblocks, extra))
     case = {"part": "ocb-long", "where": where, "nblocks": nblocks, "extra": extra}
     ect, etag = modes.ocb_encrypt(aes.AES(key), nonce, aad, pt)
 
